@@ -312,6 +312,10 @@ func c18Codec(res *world.Result, s *simrt.Sim, logf func(string, ...interface{})
 		maxK = 24
 	}
 	K := 2 + ch("c18.tasks", maxK-1)
+	// An operation's result is compared literally with what the same operation gives alone, and the
+	// text of an error can name whichever invalid map entry the walk meets first: the walk order of
+	// a map must therefore be a function of the map (sorted or reverse), not drawn per walk.
+	s.SetMapOrder(simrt.MapOrder(ch("c18.codec-map-order", 2)))
 	ops := make([]codecOp, K)
 	alone := make([]string, K)
 	for i := range ops {
